@@ -563,6 +563,16 @@ def phase_e2e(res, tier, seed, name="e2e"):
                 results.append({"path": p, "config": c, "agent": a, "errors": [f"runner: {e!r}"], "hits": [], "note_messages": [],
                                 "expected_mode": configs[c][3], "blobs": 0, "head_has_note": False, "texts": [], "cred_text": [], "cred_tool": [],
                                 "witness": {"path": p, "config": c, "agent": a}})
+    # a scenario that did not reach its writer (timeout under load, ...) is retried once, alone
+    for k, o in enumerate(results):
+        if o["errors"] or not o.get("blobs") or not o.get("head_has_note"):
+            item = (o["path"], o["config"], o["agent"])
+            try:
+                o2 = run_scenario(item[0], item[1], configs[item[1]], item[2], seed, list(creds_for[item]))
+                o2["retried_after"] = o["errors"][:2]
+                results[k] = o2
+            except Exception as e:
+                o["errors"].append(f"retry: {e!r}")
     results.sort(key=lambda o: (o["path"], o["config"], o["agent"]))
     # model prediction of the masked texts (notes mode)
     all_texts = sorted({t for o in results for t in o.get("texts", [])})
